@@ -445,6 +445,8 @@ def redirection_prestep(ctx, rule, n):
     for r in n.rets:
         if r.kind != "return":
             continue
+        if any(F.truth(c, {"infer_redirection": True}) is (not pol) for c, pol in r.conds if c[0] != "raises"):
+            continue  # a path taken only with infer_redirection=False
         t = F.simplify(r.term, {"infer_redirection": True})
         bad = F.unguarded_paths(t, F.is_param("url"), F.is_call(NM.REDIRECT))
         condtxt = " and ".join(("" if pol else "not ") + P.show(c, maxdepth=2) for c, pol in r.conds)[:80]
